@@ -287,16 +287,24 @@ fn xsd_file(voc: &Vocab, f: &Value) -> String {
 fn soap_io(voc: &Vocab, tag: &str, io: &Value, out: &mut String) {
     out.push_str(&format!("      <wsdl:{tag}>\n"));
     let us = s(io, "use").unwrap_or("literal");
+    // `hfirst`: how many of the soap:header children precede soap:body (WSDL does not fix their order)
+    let hfirst = io.get("hfirst").and_then(Value::as_u64).unwrap_or(0) as usize;
+    let header = |h: &Value| {
+        format!(
+            "        <soap:header message=\"tns:{}\" part=\"{}\" use=\"literal\"/>\n",
+            xml_esc(&voc.name_xml(s(h, "msg").unwrap_or(""))),
+            xml_esc(&voc.name_xml(s(h, "part").unwrap_or("")))
+        )
+    };
+    for h in arr(io, "headers").iter().take(hfirst) {
+        out.push_str(&header(h));
+    }
     match io.get("parts").and_then(Value::as_str) {
         Some(p) => out.push_str(&format!("        <soap:body use=\"{us}\" parts=\"{}\"/>\n", xml_esc(&voc.name_xml(p)))),
         None => out.push_str(&format!("        <soap:body use=\"{us}\"/>\n")),
     }
-    for h in arr(io, "headers") {
-        out.push_str(&format!(
-            "        <soap:header message=\"tns:{}\" part=\"{}\" use=\"literal\"/>\n",
-            xml_esc(&voc.name_xml(s(h, "msg").unwrap_or(""))),
-            xml_esc(&voc.name_xml(s(h, "part").unwrap_or("")))
-        ));
+    for h in arr(io, "headers").iter().skip(hfirst) {
+        out.push_str(&header(h));
     }
     out.push_str(&format!("      </wsdl:{tag}>\n"));
 }
